@@ -86,7 +86,10 @@ def SLP.static (p : SLP) : Except Err Unit :=
 def checkRet (p : SLP) (out : List Rat) : Except Err (List Rat) :=
   match p.retLen with
   | some n => if p.retUnit || out.length != n then .error (.other "ReturnTypeMismatch") else pure out
-  | none => pure out
+  | none =>
+    -- `return [()]`: a list holding an empty tuple, not a sequence of numbers (Python; TypeScript rejects the
+    -- text before, see `SLP.static`); Julia's `return ()` is the empty tuple
+    if p.retUnit && p.retBracket then .error (.other "ReturnNotNumeric") else pure out
 
 /-- `model(time, variables, *free)` -/
 def runSLP (p : SLP) (t : Rat) (xs ps : List Rat) : Except Err (List Rat) := do
@@ -137,6 +140,16 @@ def noIA (m : List (Name × Val)) : Bool :=
 def emittedPars (c : Content) (cache : Cache) : List (Name × Rat) :=
   cache.allPars.filter fun kv => !(omKeys c.derived).contains kv.1
 
+/-- variables that no reaction changes: they get the assignment `d<x>dt = 0`, written only when there is any
+    equation at all (after `fix: a variable that no reaction changes gets the derivative zero in generated model
+    code`) -/
+def zeroVars (variables : List Name) (de : List (Name × List (Name × Coef))) : List Name :=
+  if de.isEmpty then [] else variables.filter fun v => !(omKeys de).contains v
+
+/-- `ret_order = list(variables)`; `ret = ", ".join(d<i>dt …) if len(diff_eqs) > 0 else "()"` -/
+def retNames (variables : List Name) (de : List (Name × List (Name × Coef))) : List Name :=
+  if de.isEmpty then [] else variables.map dName
+
 def genModel (bad : List Name) (c : Content) (L : Lang) (free : List Name) : Except Err SLP := do
   let cache ← createCache c                         -- get_initial_conditions / _create_cache
   let variables := omKeys cache.init
@@ -153,7 +166,8 @@ def genModel (bad : List Name) (c : Content) (L : Lang) (free : List Name) : Exc
          assigns := (parameters.map fun kv => (T.target kv.1, Rhs.const kv.2))
                     ++ (body.map fun kr => (T.target kr.1, kr.2))
                     ++ (de.map fun vs => (T.target (dName vs.1), Rhs.lin vs.2))
-         ret := (variables.filter fun v => (omKeys de).contains v).map dName
+                    ++ ((zeroVars variables de).map fun v => (T.target (dName v), Rhs.const 0))
+         ret := retNames variables de
          retUnit := de.isEmpty
          retBracket := T.retBracket
          retLen := if T.sizedRet then some variables.length else none }
